@@ -2646,6 +2646,15 @@ class Matrix:
         return origin.angle_to(prx)
 
     def parse(self, transform_str):
+        """Parses the svg transform string. A malformed transform list raises ValueError."""
+        if transform_str and not isinstance(transform_str, str):
+            raise TypeError("Must provide a string to parse")
+        try:
+            return self._parse(transform_str)
+        except (IndexError, TypeError):
+            raise ValueError("Invalid transform: %s" % transform_str)
+
+    def _parse(self, transform_str):
         """Parses the svg transform string.
 
         Transforms from SVG 1.1 have a smaller complete set of operations. Whereas in SVG 2.0 they gain
